@@ -392,14 +392,8 @@ Proof.
     + cbn [flat_map app]. apply (IH ids Hl).
 Qed.
 
-Lemma alloc_length : forall xs next ids, alloc next xs = Some ids -> length ids = length xs.
-Proof.
-  induction xs as [|x xs IH]; intros next ids; simpl.
-  - intros H; inversion H; reflexivity.
-  - destruct (alloc_one next x) as [i|]; [|discriminate].
-    destruct (alloc (Z.max next i + 1) xs) as [l|] eqn:A; [|discriminate].
-    intros H; inversion H; subst. simpl. f_equal. eapply IH; eassumption.
-Qed.
+Lemma fill_length : forall xs s, length (fill s xs) = length xs.
+Proof. induction xs as [|x xs IH]; intros s; simpl; [reflexivity|]. destruct (kind x); simpl; rewrite IH; reflexivity. Qed.
 
 Lemma spec_adds_explicit : forall e t o rows, map fst (spec_adds e t o rows) = ref_explicit e t o rows.
 Proof.
@@ -451,51 +445,70 @@ Lemma ref_run_spec : forall e t0 o rows old nr next,
   ids_of old = ids_of t0 ->
   (forall i, In i (ids_of nr) -> ~ In i (ids_of t0)) ->
   ref_run e t0 o (old ++ nr) next rows =
-    match alloc next (ref_explicit e t0 o rows) with
-    | None => Err EEnv
-    | Some ids =>
-        if good (ids_of (old ++ nr)) ids
-        then Ok (apply_upds e (ref_upds e t0 o rows) old ++ nr
-                   ++ combine ids (map (fun a => new_cells e (snd a)) (spec_adds e t0 o rows)),
-                 resolve e t0 o rows ids)
-        else Err EEnv
-    end.
+    if existsb is_bad (ref_explicit e t0 o rows) then Err EEnv
+    else let ids := fill next (ref_explicit e t0 o rows) in
+      if good (ids_of (old ++ nr)) ids
+      then Ok (apply_upds e (ref_upds e t0 o rows) old ++ nr
+                 ++ combine ids (map (fun a => new_cells e (snd a)) (spec_adds e t0 o rows)),
+               resolve e t0 o rows ids)
+      else Err EEnv.
 Proof.
-  intros e t0 o rows; induction rows as [|r rows IH]; intros old nr next Hold Hnr.
+  intros e t0 o rows; induction rows as [|r rows IH]; intros old nr next Hold Hnr; cbn zeta.
   - simpl. rewrite app_nil_r. reflexivity.
   - cbn [ref_run]. unfold ref_explicit, ref_upds, spec_adds. cbn [flat_map resolve].
     fold (ref_explicit e t0 o rows). fold (ref_upds e t0 o rows). fold (spec_adds e t0 o rows).
     destruct (ref_outcome e t0 o (fst r)) as [| |m] eqn:Out.
-    + cbn [app]. rewrite (IH old nr next Hold Hnr).
-      destruct (alloc next (ref_explicit e t0 o rows)) as [ids|]; [|reflexivity].
-      destruct (good (ids_of (old ++ nr)) ids); reflexivity.
-    + cbn [app alloc].
-      destruct (alloc_one next (dget id_col (add_values e r))) as [i|]; [|reflexivity].
-      destruct ((0 <? i) && negb (memz i (ids_of (old ++ nr)))) eqn:G.
-      * assert (Hi : ~ In i (ids_of t0)).
-        { apply andb_true_iff in G. destruct G as [_ G]. apply negb_true_iff in G.
-          intros Hin. rewrite <- Hold in Hin. rewrite ids_of_app, memz_app in G. apply orb_false_iff in G.
-          destruct G as [G _]. apply memz_In in Hin. congruence. }
-        rewrite <- app_assoc. rewrite (IH old (nr ++ [(i, new_cells e (drop_id (add_values e r)))]) (Z.max next i + 1) Hold).
-        2:{ intros j Hj. rewrite ids_of_app in Hj. apply in_app_or in Hj. destruct Hj as [Hj|[Hj|[]]].
-            - apply Hnr; exact Hj.
-            - simpl in Hj. subst j. exact Hi. }
-        destruct (alloc (Z.max next i + 1) (ref_explicit e t0 o rows)) as [ids|]; [|reflexivity].
-        cbn [good]. rewrite G. cbn [andb].
-        replace (ids_of (old ++ nr ++ [(i, new_cells e (drop_id (add_values e r)))])) with (ids_of (old ++ nr) ++ [i])
-          by (rewrite !ids_of_app; simpl; rewrite app_assoc; reflexivity).
-        destruct (good (ids_of (old ++ nr) ++ [i]) ids); [|reflexivity].
-        cbn [map combine snd]. rewrite <- !app_assoc. reflexivity.
-      * destruct (alloc (Z.max next i + 1) (ref_explicit e t0 o rows)) as [ids|]; [|reflexivity].
-        cbn [good]. rewrite G. reflexivity.
+    + cbn [app]. rewrite (IH old nr next Hold Hnr). cbn zeta.
+      destruct (existsb is_bad (ref_explicit e t0 o rows)); [reflexivity|].
+      destruct (good (ids_of (old ++ nr)) (fill next (ref_explicit e t0 o rows))); reflexivity.
+    + cbn [app existsb fill]. unfold is_bad at 1.
+      destruct (kind (dget id_col (add_values e r))) as [|n|] eqn:K; [| |reflexivity]; cbn [orb].
+      * (* automatic id *)
+        destruct ((0 <? next) && negb (memz next (ids_of (old ++ nr)))) eqn:G.
+        -- assert (Hi : ~ In next (ids_of t0)).
+           { apply andb_true_iff in G. destruct G as [_ G]. apply negb_true_iff in G.
+             intros Hin. rewrite <- Hold in Hin. rewrite ids_of_app, memz_app in G. apply orb_false_iff in G.
+             destruct G as [G _]. apply memz_In in Hin. congruence. }
+           rewrite <- app_assoc.
+           rewrite (IH old (nr ++ [(next, new_cells e (drop_id (add_values e r)))]) (next + 1) Hold).
+           2:{ intros j Hj. rewrite ids_of_app in Hj. apply in_app_or in Hj. destruct Hj as [Hj|[Hj|[]]].
+               - apply Hnr; exact Hj.
+               - simpl in Hj. subst j. exact Hi. }
+           cbn zeta. destruct (existsb is_bad (ref_explicit e t0 o rows)); [reflexivity|].
+           cbn [good]. rewrite G. cbn [andb].
+           replace (ids_of (old ++ nr ++ [(next, new_cells e (drop_id (add_values e r)))]))
+             with (ids_of (old ++ nr) ++ [next]) by (rewrite !ids_of_app; simpl; rewrite app_assoc; reflexivity).
+           destruct (good (ids_of (old ++ nr) ++ [next]) (fill (next + 1) (ref_explicit e t0 o rows))); [|reflexivity].
+           cbn [map combine snd]. rewrite <- !app_assoc. reflexivity.
+        -- destruct (existsb is_bad (ref_explicit e t0 o rows)); [reflexivity|].
+           cbn [good]. rewrite G. reflexivity.
+      * (* explicit id *)
+        destruct ((0 <? n) && negb (memz n (ids_of (old ++ nr)))) eqn:G.
+        -- assert (Hi : ~ In n (ids_of t0)).
+           { apply andb_true_iff in G. destruct G as [_ G]. apply negb_true_iff in G.
+             intros Hin. rewrite <- Hold in Hin. rewrite ids_of_app, memz_app in G. apply orb_false_iff in G.
+             destruct G as [G _]. apply memz_In in Hin. congruence. }
+           rewrite <- app_assoc.
+           rewrite (IH old (nr ++ [(n, new_cells e (drop_id (add_values e r)))]) next Hold).
+           2:{ intros j Hj. rewrite ids_of_app in Hj. apply in_app_or in Hj. destruct Hj as [Hj|[Hj|[]]].
+               - apply Hnr; exact Hj.
+               - simpl in Hj. subst j. exact Hi. }
+           cbn zeta. destruct (existsb is_bad (ref_explicit e t0 o rows)); [reflexivity|].
+           cbn [good]. rewrite G. cbn [andb].
+           replace (ids_of (old ++ nr ++ [(n, new_cells e (drop_id (add_values e r)))]))
+             with (ids_of (old ++ nr) ++ [n]) by (rewrite !ids_of_app; simpl; rewrite app_assoc; reflexivity).
+           destruct (good (ids_of (old ++ nr) ++ [n]) (fill next (ref_explicit e t0 o rows))); [|reflexivity].
+           cbn [map combine snd]. rewrite <- !app_assoc. reflexivity.
+        -- destruct (existsb is_bad (ref_explicit e t0 o rows)); [reflexivity|].
+           cbn [good]. rewrite G. reflexivity.
     + cbn [app]. rewrite apply_upds_app.
       rewrite (apply_upds_untouched e _ nr).
       2:{ intros u Hu Hin. apply in_map_iff in Hu. destruct Hu as [x [<- Hx]]. cbn [fst] in Hin.
           apply (Hnr x Hin). apply (ref_outcome_update_In e t0 o (fst r) m x Out Hx). }
-      rewrite (IH _ nr next); [| rewrite apply_upds_ids; exact Hold | exact Hnr].
-      destruct (alloc next (ref_explicit e t0 o rows)) as [ids|]; [|reflexivity].
+      rewrite (IH _ nr next); [| rewrite apply_upds_ids; exact Hold | exact Hnr]. cbn zeta.
+      destruct (existsb is_bad (ref_explicit e t0 o rows)); [reflexivity|].
       rewrite !ids_of_app, apply_upds_ids.
-      destruct (good (ids_of old ++ ids_of nr) ids); [|reflexivity].
+      destruct (good (ids_of old ++ ids_of nr) (fill next (ref_explicit e t0 o rows))); [|reflexivity].
       unfold apply_upds. rewrite fold_left_app. reflexivity.
 Qed.
 
@@ -516,6 +529,79 @@ Proof.
   apply andb_true_iff in Hnd. destruct Hnd as [Hni Hnd]. apply negb_true_iff in Hni.
   rewrite Hi, (IH _ Hpos Hnd), (existsb_mem_snoc i seen ids Hni). cbn [andb].
   rewrite negb_orb. reflexivity.
+Qed.
+
+(* ---------- the id filling yields positive, pairwise different ids ---------- *)
+Lemma validate_false_good : forall xs s seenv seeng,
+  (forall n, In n seenv -> In n seeng) -> validate seenv xs = false -> good seeng (fill s xs) = false.
+Proof.
+  induction xs as [|x xs IH]; intros s seenv seeng Hsub Hv; simpl in *; [discriminate|].
+  destruct (kind x) as [|n|] eqn:K; cbn [good].
+  - rewrite (IH (s + 1) seenv (seeng ++ [s])); [apply andb_false_r | intros n Hn; apply in_or_app; left; auto | exact Hv].
+  - destruct (Z.eqb_spec n 0) as [->|Hn0]; [reflexivity|]. cbn [negb andb] in Hv.
+    destruct (memz n seenv) eqn:M.
+    + apply memz_In in M. apply Hsub in M. apply memz_In in M. rewrite M. cbn [negb]. rewrite andb_false_r. reflexivity.
+    + cbn [negb andb] in Hv. rewrite (IH s (n :: seenv) (seeng ++ [n])); [apply andb_false_r | | exact Hv].
+      intros k [<-|Hk]; apply in_or_app; [right; left; reflexivity | left; auto].
+  - rewrite (IH (s + 1) seenv (seeng ++ [s])); [apply andb_false_r | intros n Hn; apply in_or_app; left; auto | exact Hv].
+Qed.
+
+Definition explicit_below (s : Z) (xs : list (option val)) : Prop :=
+  forall x n, In x xs -> kind x = IExplicit n -> n < s.
+
+Lemma fill_bounds : forall xs s i, In i (fill s xs) ->
+  s <= i \/ exists x, In x xs /\ kind x = IExplicit i.
+Proof.
+  induction xs as [|x xs IH]; intros s i Hin; simpl in Hin; [destruct Hin|].
+  destruct (kind x) as [|n|] eqn:K; destruct Hin as [<-|Hin];
+    try (left; lia); try (right; exists x; split; [left; reflexivity|exact K]);
+    (destruct (IH _ i Hin) as [H|[y [Hy Ky]]]; [left; lia | right; exists y; split; [right; exact Hy|exact Ky]]).
+Qed.
+
+Lemma validate_seen_absent : forall n y zs sn,
+  kind y = IExplicit n -> In n sn -> In y zs -> validate sn zs = true -> False.
+Proof.
+  intros n y zs; induction zs as [|z zs IHz]; intros sn Ky Hsn Hin V; [destruct Hin|].
+  simpl in V. destruct Hin as [<-|Hz].
+  - rewrite Ky in V. apply andb_true_iff in V. destruct V as [V _]. apply andb_true_iff in V. destruct V as [_ V].
+    apply negb_true_iff in V. apply memz_In in Hsn. congruence.
+  - destruct (kind z) as [|k|]; [apply (IHz sn Ky Hsn Hz V)| |apply (IHz sn Ky Hsn Hz V)].
+    apply andb_true_iff in V. destruct V as [_ V]. apply (IHz (k :: sn)); [exact Ky|right; exact Hsn|exact Hz|exact V].
+Qed.
+
+Lemma fill_clean : forall xs s seen, 1 <= s -> explicit_below s xs ->
+  (forall x n, In x xs -> kind x = IExplicit n -> ~ In n seen) ->
+  validate seen xs = true ->
+  forallb (fun i => 0 <? i) (fill s xs) = true /\ nodupb (fill s xs) = true.
+Proof.
+  induction xs as [|x xs IH]; intros s seen Hs Hb Hseen Hv; simpl in *; [split; reflexivity|].
+  assert (Hb' : forall s', s <= s' -> explicit_below s' xs).
+  { intros s' Hs' y n Hy Ky. specialize (Hb y n (or_intror Hy) Ky). lia. }
+  destruct (kind x) as [|n|] eqn:K; cbn [forallb nodupb].
+  - destruct (IH (s + 1) seen) as [P N]; [lia | apply Hb'; lia | intros y n Hy; apply Hseen; right; exact Hy | exact Hv |].
+    rewrite P, N. replace (0 <? s) with true by (symmetry; apply Z.ltb_lt; lia).
+    replace (memz s (fill (s + 1) xs)) with false; [split; reflexivity|].
+    symmetry. apply not_true_is_false. intros M. apply memz_In in M.
+    destruct (fill_bounds xs (s + 1) s M) as [H|[y [Hy Ky]]]; [lia|]. specialize (Hb y s (or_intror Hy) Ky). lia.
+  - apply andb_true_iff in Hv. destruct Hv as [Hv Hv3]. apply andb_true_iff in Hv. destruct Hv as [Hn0 Hns].
+    apply negb_true_iff in Hn0. apply Z.eqb_neq in Hn0.
+    assert (Hn : 0 <= n).
+    { unfold kind in K. destruct x as [[|z|]|]; try discriminate K.
+      destruct (Z.ltb_spec z 0); [discriminate K|]. destruct (z >? row_limit); inversion K; subst; lia. }
+    destruct (IH s (n :: seen)) as [P N]; [exact Hs | apply Hb'; lia | | exact Hv3 |].
+    { intros y k Hy Ky [E|Hk]; [|apply (Hseen y k (or_intror Hy) Ky Hk)]. subst k.
+      apply (validate_seen_absent n y xs (n :: seen) Ky (or_introl eq_refl) Hy Hv3). }
+    rewrite P, N. replace (0 <? n) with true by (symmetry; apply Z.ltb_lt; lia).
+    replace (memz n (fill s xs)) with false; [split; reflexivity|].
+    symmetry. apply not_true_is_false. intros M. apply memz_In in M.
+    destruct (fill_bounds xs s n M) as [H|[y [Hy Ky]]].
+    + specialize (Hb x n (or_introl eq_refl) K). lia.
+    + apply (validate_seen_absent n y xs (n :: seen) Ky (or_introl eq_refl) Hy Hv3).
+  - destruct (IH (s + 1) seen) as [P N]; [lia | apply Hb'; lia | intros y n Hy; apply Hseen; right; exact Hy | exact Hv |].
+    rewrite P, N. replace (0 <? s) with true by (symmetry; apply Z.ltb_lt; lia).
+    replace (memz s (fill (s + 1) xs)) with false; [split; reflexivity|].
+    symmetry. apply not_true_is_false. intros M. apply memz_In in M.
+    destruct (fill_bounds xs (s + 1) s M) as [H|[y [Hy Ky]]]; [lia|]. specialize (Hb y s (or_intror Hy) Ky). lia.
 Qed.
 
 (* ---------- the argument checks ---------- *)
@@ -648,17 +734,32 @@ Lemma rows_of_mk : forall len require col_values,
   rows_of len require col_values = map (mk_row require col_values) (seq 0 len).
 Proof. reflexivity. Qed.
 
+Lemma start_id_spec : forall xs a, a <= start_id a xs /\ explicit_below (start_id a xs) xs.
+Proof.
+  unfold start_id, explicit_below. induction xs as [|x xs IH]; intros a; simpl.
+  - split; [lia|intros x n []].
+  - destruct (kind x) as [|k|] eqn:K.
+    + destruct (IH a) as [H1 H2]. split; [exact H1|]. intros y n [<-|Hy] Ky; [congruence|apply (H2 y n Hy Ky)].
+    + destruct (IH (Z.max a (k + 1))) as [H1 H2]. split; [lia|].
+      intros y n [<-|Hy] Ky; [|apply (H2 y n Hy Ky)]. rewrite K in Ky. inversion Ky; subst. lia.
+    + destruct (IH a) as [H1 H2]. split; [exact H1|]. intros y n [<-|Hy] Ky; [congruence|apply (H2 y n Hy Ky)].
+Qed.
+
+Lemma fold_max_ge : forall l a, a <= fold_left Z.max l a.
+Proof. induction l as [|x l IH]; intros a; simpl; [lia|]. specialize (IH (Z.max a x)). lia. Qed.
+
+Lemma next_row_id_pos : forall t, 1 <= next_row_id t.
+Proof. intros t. unfold next_row_id, max_id. pose proof (fold_max_ge (ids_of t) 0). lia. Qed.
+
 Lemma ref_run_spec0 : forall e t o rows next,
   ref_run e t o t next rows =
-    match alloc next (ref_explicit e t o rows) with
-    | None => Err EEnv
-    | Some ids =>
-        if good (ids_of t) ids
-        then Ok (apply_upds e (ref_upds e t o rows) t
-                   ++ combine ids (map (fun a => new_cells e (snd a)) (spec_adds e t o rows)),
-                 resolve e t o rows ids)
-        else Err EEnv
-    end.
+    if existsb is_bad (ref_explicit e t o rows) then Err EEnv
+    else let ids := fill next (ref_explicit e t o rows) in
+      if good (ids_of t) ids
+      then Ok (apply_upds e (ref_upds e t o rows) t
+                 ++ combine ids (map (fun a => new_cells e (snd a)) (spec_adds e t o rows)),
+               resolve e t o rows ids)
+      else Err EEnv.
 Proof.
   intros e t o rows next. pose proof (ref_run_spec e t o rows t [] next eq_refl) as H.
   rewrite !app_nil_r in H. apply H. intros i [].
@@ -687,10 +788,9 @@ Qed.
 Lemma core_eq : forall e t require col_values o len,
   o_on_many o <> OnBad ->
   stale_free e t (ref_upds e t o (rows_of len require col_values)) = true ->
-  ids_clean t (ref_explicit e t o (rows_of len require col_values)) = true ->
   upsert_core e t require col_values o len = ref_core e t require col_values o len.
 Proof.
-  intros e t require col_values o len Hbad Hstale Hclean.
+  intros e t require col_values o len Hbad Hstale.
   unfold upsert_core, ref_core. cbn zeta.
   rewrite (loop_spec e t o require col_values Hbad len 0%nat
              {| s_adds := []; s_new_idx := []; s_upds := []; s_rec_ids := repeat [] len; s_upd_ids := [] |}
@@ -700,10 +800,15 @@ Proof.
   rewrite nothing_iff.
   destruct (negb (forallb (fun r => is_nothing (ref_outcome e t o (fst r))) rows)
             && negb (forallb (fun p => writable e (fst p)) col_values)); [reflexivity|].
-  rewrite bulk_add_nil, ref_run_spec0. unfold bulk_add. rewrite spec_adds_explicit.
-  unfold ids_clean in Hclean.
-  destruct (alloc (next_row_id t) (ref_explicit e t o rows)) as [ids|] eqn:A; [|reflexivity].
-  apply andb_true_iff in Hclean. destruct Hclean as [Hpos Hnd].
+  rewrite bulk_add_nil, ref_run_spec0. unfold bulk_add, alloc. rewrite spec_adds_explicit. cbn zeta.
+  destruct (existsb is_bad (ref_explicit e t o rows)); [reflexivity|].
+  set (start := start_id (next_row_id t) (ref_explicit e t o rows)).
+  destruct (validate [] (ref_explicit e t o rows)) eqn:V.
+  2:{ rewrite (validate_false_good _ start [] (ids_of t)); [reflexivity|intros n []|exact V]. }
+  destruct (start_id_spec (ref_explicit e t o rows) (next_row_id t)) as [Hge Hbelow]. fold start in Hge, Hbelow.
+  destruct (fill_clean (ref_explicit e t o rows) start [] ) as [Hpos Hnd];
+    [pose proof (next_row_id_pos t); lia | exact Hbelow | intros x n _ _ [] | exact V |].
+  set (ids := fill start (ref_explicit e t o rows)) in *.
   rewrite (good_clean ids (ids_of t) Hpos Hnd), (existsb_row_exists t ids Hpos).
   destruct (existsb (fun i => memz i (ids_of t)) ids) eqn:Ex; [reflexivity|]. cbn [negb].
   assert (Hfresh : forall i, In i ids -> ~ In i (ids_of t)).
@@ -717,7 +822,7 @@ Proof.
     - exact Hstale. }
   pose proof (fill_spec e t o (map (mk_row require col_values) (seq 0 len)) 0%nat [] ids eq_refl) as F. cbn [app] in F. rewrite F.
   unfold ret_of at 2. f_equal.
-  - symmetry. apply resolve_add_ids. rewrite (alloc_length _ _ _ A).
+  - symmetry. apply resolve_add_ids. unfold ids. rewrite fill_length.
     rewrite <- spec_adds_explicit. apply map_length.
   - symmetry. apply resolve_update_ids.
 Qed.
@@ -742,13 +847,12 @@ Qed.
 
 Lemma upsert_eq : forall e t require col_values o,
   no_stale_update e t require col_values o = true ->
-  new_ids_clean e t require col_values o = true ->
   upsert e t require col_values o = ref_upsert e t require col_values o.
 Proof.
-  intros e t require col_values o Hs Hc. unfold ref_upsert.
+  intros e t require col_values o Hs. unfold ref_upsert.
   destruct (arg_error require col_values o) as [x|] eqn:AE; [apply arg_error_upsert; exact AE|].
   unfold arg_error, empty_require_refused, duplicate_keys in AE.
-  unfold no_stale_update in Hs. unfold new_ids_clean in Hc. unfold upsert. unfold common_length in *.
+  unfold no_stale_update in Hs. unfold upsert. unfold common_length in *.
   rewrite lens_match.
   assert (Hbad : o_on_many o <> OnBad).
   { intros E. unfold bad_on_many in AE. rewrite E in AE. discriminate AE. }
@@ -838,12 +942,11 @@ Proof.
 Qed.
 
 Lemma single_eq : forall e t rq cv o,
-  new_ids_clean e t (single_kv rq) (single_kv cv) o = true ->
   upsert_single e t rq cv o = ref_single e t rq cv o.
 Proof.
-  intros e t rq cv o Hc. unfold upsert_single, ref_single.
+  intros e t rq cv o. unfold upsert_single, ref_single.
   destruct (isnil rq && isnil cv) eqn:E; [reflexivity|].
-  rewrite (upsert_eq e t _ _ o (no_stale_single e t rq cv o) Hc).
+  rewrite (upsert_eq e t _ _ o (no_stale_single e t rq cv o)).
   unfold ref_upsert. destruct (arg_error (single_kv rq) (single_kv cv) o); [reflexivity|].
   rewrite !isnil_single, E, (common_length_single rq cv E).
   destruct (negb (forallb (fun p => known e (fst p)) (single_kv rq))); [reflexivity|].
@@ -853,8 +956,10 @@ Proof.
   cbn [ref_run fst snd].
   destruct (ref_outcome e t o rq) as [| |m] eqn:Out.
   - reflexivity.
-  - destruct (alloc_one (next_row_id t) (dget id_col (add_values e (rq, cv)))) as [i|]; [|reflexivity].
-    destruct ((0 <? i) && negb (memz i (ids_of t))); reflexivity.
+  - cbn [ref_explicit flat_map fst]. rewrite Out.
+    destruct (kind (dget id_col (add_values e (rq, cv)))) as [|n|]; [| |reflexivity].
+    + destruct ((0 <? _) && negb (memz _ (ids_of t))); reflexivity.
+    + destruct ((0 <? n) && negb (memz n (ids_of t))); reflexivity.
   - cbn [ret_of map flat_map app r_record_ids r_update_ids isnil negb]. reflexivity.
 Qed.
 
